@@ -23,6 +23,7 @@ func init() {
 			"label_format rename is guarded by the presence of the source; literalBinOpIterator.Next structure",
 			"PV-ONCE step transformers read one inner step per outer step (no loop that can spin on an unbounded grid)",
 			"PF-IDX constant indices in the Docker backend are guarded",
+			"PV-GUARD every matching field of the modifier is tested by BinOp; PF-IDX constant indices in the engine and parser are guarded",
 		},
 		NotDecided: []string{
 			"termination of loops (lexer scanners, IPLineFilter, stepper – the last relies on C16's positivity for CLI callers)",
@@ -56,6 +57,8 @@ func init() {
 			ruleLiteralBinOpWritesBack(r)
 			ruleOneInnerStepPerStep(r)
 			ruleConstIndexGuarded(r, []string{dockerlogPkg}, 2)
+			ruleModifierGuardComplete(r)
+			ruleConstIndexGuarded(r, []string{enginePkg, logqlPkg}, 6)
 		},
 	})
 }
